@@ -90,6 +90,15 @@ CLAIMED["C16"] = _entry(
     "static analysis: exhaustiveness against the interpreter's list type, CFG dominance/must-pass and call-count rules per override, guard dominance in the focus setter",
 )
 
+CLAIMED["C10"] = _entry(
+    "Static analysis decides the editor's structural invariants: single writers of the text and of the cursor offset with the clamp to [0, len] at the store and a re-clamp after every "
+    "replacement; the change -> store -> postchange order with the right arguments on every path; invalidation of cached canvases by every mutator and the return discipline of keypress; "
+    "cursor moves and deletion bounds taken from move_prev_char/move_next_char (never arithmetic); the preferred column reset on every replacement; and a finite-alphabet membership test in "
+    "the numeric variants' valid_char. Equality of text and offset with a reference editor over all key sequences is a value property and is not decided (level 'other').",
+    "DESIGN.md section 3, C10; engines E11, E6, E1, E12",
+    "static analysis: single-writer and sanitised-store rules via def-use expansion, CFG ordering/must-pass of signal emissions, write=>invalidate, return discipline",
+)
+
 _PENDING = "check not built yet in this session (planned per DESIGN.md section 3); listed here until its static rules exist and pass on the pinned tree"
 NOT_APPLICABLE = {pid: _PENDING for pid in [f"C{i:02d}" for i in range(1, 21)] if pid not in CLAIMED and pid != "C07"}
 NOT_APPLICABLE["C07"] = (
